@@ -236,6 +236,14 @@ func (n *NativeRunner) ReplayRace(relDir, pkgName string, harnesses []string, ha
 		return nil, "", err
 	}
 	recs, out, err := n.goTest(relDir, ov, []string{"VERIF_MODE=replay", "VERIF_HARNESS=" + harness, "VERIF_VECTOR=" + replayFile}, race)
+	if len(recs) == 0 && err != nil {
+		// the process died: an unrecovered panic in a goroutine or a fatal error
+		for _, l := range strings.Split(out, "\n") {
+			if strings.HasPrefix(l, "panic: ") || strings.HasPrefix(l, "fatal error: ") {
+				return &NativeRec{Failed: []string{harness + ".panic"}, Panic: l}, out, nil
+			}
+		}
+	}
 	if len(recs) == 0 {
 		return nil, out, fmt.Errorf("native replay produced no result (%v)", err)
 	}
